@@ -1,5 +1,6 @@
 import PandoraModel.Properties.C14
 import PandoraModel.Properties.C14Kernels
+import PandoraModel.Properties.C14KernelsStep
 open Pandora.C14 Pandora.Interp
 -- tie to the source (tables regenerated on every run): directions, flag updates with the raising operator,
 -- constants, and the variant (guards of e1d31ca present)
@@ -50,3 +51,10 @@ open Pandora.C14 Pandora.Interp
 #print axioms Pandora.C14Kernels.mcDirs_half
 #print axioms Pandora.C14Kernels.mismatchMcCnn_generated_eq
 #print axioms Pandora.C14Kernels.nodataSgm_generated_eq
+-- T15: the whole interpolated_disparity step (both classes) regenerated as an array program calling the regenerated kernels
+#print axioms Pandora.C14KernelsStep.mismMcPixel_congr
+#print axioms Pandora.C14KernelsStep.occlSgmPixel_congr
+#print axioms Pandora.C14KernelsStep.runKernel_agree
+#print axioms Pandora.C14KernelsStep.mccnn_step_generated
+#print axioms Pandora.C14KernelsStep.sgm_step_generated
+#print axioms Pandora.C14KernelsStep.attrs_source
